@@ -34,6 +34,7 @@ def run(ctx, rep):
     rep.run(RI.rule_no_carry_over, ctx, rep, "S1")
     rep.run(RI.rule_typenames_are_keys, ctx, rep, "S3")
     rep.run(RI.rule_depth, ctx, rep, "S2")
+    rep.run(RI.rule_nested_forms, ctx, rep, "S2")
     rep.run(RI.rule_whole_identifier, ctx, rep, "S3", exclude={"instantiate_name"})   # naming: C08/N5
     rep.run(RI.rule_qualifier_forwarding, ctx, rep, "S4", min_sites=3)
     rep.run(RI.rule_name_default_forwarding, ctx, rep, "S5")
